@@ -197,6 +197,77 @@ def wp_model(wps, pick, drop):
     return f"wp ({' '.join(T.canon_grid(g) for g in wps)}) {sx(pick)} {sx(drop)}"
 
 
+OPT_PROBE = '''
+import sys
+from bloqade.geometry.dialects.grid import Grid
+from bloqade.shuttle.arch import ArchSpec
+from bloqade.shuttle.stdlib.waypoints import move_by_waypoints
+from kirin.dialects import ilist
+from harness import events as EV
+assert not __debug__ or sys.flags.optimize == 0
+a, b = Grid.from_positions([0.0, 1.0], [0.0]), Grid.from_positions([0.0, 1.0], [2.0])
+wide = Grid.from_positions([0.0, 1.0], [0.0, 1.0])
+for name, wps in (("same shapes", [a, b, a]), ("last waypoint of another shape", [a, b, wide]), ("middle waypoint of another shape", [a, wide, b])):
+    for pick, drop in ((True, True), (False, True), (True, False)):
+        r = EV.run_with_events(move_by_waypoints, ArchSpec(), (ilist.IList(wps), pick, drop))
+        print(name, pick, drop, "REJECTED" if r.error is not None else "ACCEPTED", flush=True)
+'''
+
+
+def optimised_interpreter_probe(ctx):
+    """the rejections do not depend on Python's `assert`: under `python -O` a waypoint list of mixed shapes is still rejected
+    and a well-formed one still accepted"""
+    import os
+    import subprocess
+    import sys
+    from ..core import REPO, VERIF
+    env = dict(os.environ, PYTHONPATH=f"{REPO}/src:{VERIF}")
+    outs = {}
+    for flag in ("", "-O"):
+        p = subprocess.run([sys.executable] + ([flag] if flag else []) + ["-c", OPT_PROBE], capture_output=True, text=True, env=env, timeout=600)
+        outs[flag] = p.stdout.strip().split("\n") if p.returncode == 0 else [f"probe failed: {p.stderr[-300:]}"]
+        ctx.count("optimised_interpreter_probe_lines", len(outs[flag]))
+    for line in outs["-O"]:
+        if ("another shape" in line and "REJECTED" not in line) or ("same shapes" in line and "ACCEPTED" not in line) or line.startswith("probe failed"):
+            ctx.fail({"move": "move_by_waypoints", "interpreter": "python -O", "probe": OPT_PROBE},
+                     f"under python -O: {line[:200]} (a waypoint list of mixed shapes must be rejected, a well-formed one accepted)")
+    if outs[""] != outs["-O"]:
+        ctx.fail({"move": "move_by_waypoints", "interpreter": "python -O", "probe": OPT_PROBE},
+                 f"python and python -O disagree on which waypoint moves are rejected: {outs['']} vs {outs['-O']}")
+
+
+SPEC_SLOT = None
+USER_SRC = '''from kirin.dialects import ilist
+from bloqade.shuttle.prelude import move
+from bloqade.shuttle.stdlib.layouts.single_col_zone import cz_move
+from harness.props import c08 as _C08
+
+@move{opts}
+def user():
+    cz_move(ilist.IList({cx}), ilist.IList({cy}), ilist.IList({qx}), ilist.IList({qy}))
+'''
+
+
+def user_program_routes(C, spec, spec_key, lists, want_paths):
+    """the same library move called with literal arguments from a user kernel compiled with other options (spec at compile
+    time, aggressive inlining, both): the paths it plays are the ones the library move plays when called directly"""
+    global SPEC_SLOT
+    SPEC_SLOT = spec
+    cx, cy, qx, qy = lists
+    for opts, plain in (("(arch_spec=_C08.SPEC_SLOT)", True), ("(aggressive=True)", False), ("(arch_spec=_C08.SPEC_SLOT, aggressive=True)", True)):
+        src = USER_SRC.format(opts=opts, cx=cx, cy=cy, qx=qx, qy=qy)
+        C.ctx.count("user_program_route_runs")
+        try:
+            r = EV.run_with_events(T.load_source(src, "c08u").user, spec, (), plain=plain)
+            got = "err" if r.error is not None else [EV.canon_pathobj(p) for p in paths_of(r.events)]
+        except Exception as e:  # noqa: BLE001
+            got = f"compile {type(e).__name__}"
+        if got != want_paths:
+            C.ctx.fail({"move": "cz_move", "layout": list(spec_key), "args": repr(lists), "user_kernel_options": opts},
+                       f"cz_move{tuple(lists)!r} called from a user kernel compiled with @move{opts} plays other paths than the "
+                       f"move called directly: {str(got)[:300]} vs {str(want_paths)[:300]}")
+
+
 def gen_cz(C, rng, thorough):
     from bloqade.shuttle.stdlib.layouts import single_col_zone
     from kirin.dialects import ilist
@@ -221,6 +292,10 @@ def gen_cz(C, rng, thorough):
                     continue
                 C.call(nm, mt, key, spec, tuple(ilist.IList(l) for l in (cx, cy, qx, qy)), True, src, src, extras=tgt + others,
                        model=cz_model(zone, (cx, cy, qx, qy)))
+            if (cx, cy, qx, qy) == combos[0] and (nx, ny) in ((2, 2), (3, 1), (1, 3)):
+                direct = EV.run_with_events(single_col_zone.cz_move, spec, tuple(ilist.IList(l) for l in (cx, cy, qx, qy)))
+                if direct.error is None:
+                    user_program_routes(C, spec, key, (cx, cy, qx, qy), [EV.canon_pathobj(p) for p in paths_of(direct.events)])
         # invalid classes, one list at a time
         good_x, good_y = [0], [0]
         for cls, bad in invalid_lists(rng, nx).items():
@@ -395,6 +470,8 @@ def run(ctx):
     gen_same_args_across_layouts(C, rng, thorough)
     gen_waypoints(C, rng, thorough)
     gen_gemini(C, rng, thorough)
+    if ctx.replay_case is None:
+        optimised_interpreter_probe(ctx)
     reqs = []
     for case, paths, occ, want, holding_ok, sites_sx, ptxt in C.lines:
         if occ is None:
